@@ -15,7 +15,7 @@ static void body(Ctx& C)
           "parameter; after every binding every parameter of the pool is queried and compared with a std::map model (latest binding, "
           "else the parameter itself); elementary substitutions: one binding, every pool parameter queried; non-trivial = >= 2 parameters");
    C.need("elementary_queries_in_domain"); C.need("elementary_queries_outside_domain"); C.need("general_queries_in_domain");
-   C.need("general_queries_outside_domain"); C.need("rebindings"); C.need("self_bindings"); C.need("parameter_lists"); C.need("parameters_with_a_default");
+   C.need("general_queries_outside_domain"); C.need("rebindings"); C.need("self_bindings"); C.need("parameter_lists"); C.need("parameters_with_a_default"); C.need("chained_bindings");
    Rng seeds(C.seed);
    const int nhist = C.thorough ? 6000 : 120;
    for (int h = 0; h < nhist; ++h) {
@@ -99,9 +99,15 @@ static void body(Ctx& C)
          const Expr* v = rng.chance(15) ? static_cast<const Expr*>(rng.pick(pool)) : rng.pick(values);
          if (rng.chance(5)) { v = p; C.count("self_bindings"); }
          if (model.count(p)) C.count("rebindings");
-         auto& ret = g.subst(*p, *v);
-         if (&ret != &g) C.viol("general:subst-return", "subst does not return the substitution itself", where(i));
+         // what subst returns is the substitution itself: further bindings may be given through it (chained calls)
+         auto&& ret = g.subst(*p, *v);
+         if (static_cast<const void*>(&ret) != static_cast<const void*>(&g)) C.viol("general:subst-return", "subst does not return the substitution itself", where(i));
          model[p] = v;
+         if (rng.chance(25)) {
+            const Parameter* p2 = rng.pick(pool); const Expr* v2 = rng.pick(values); const Parameter* p3 = rng.pick(pool); const Expr* v3 = rng.pick(values);
+            g.subst(*p2, *v2).subst(*p3, *v3);
+            model[p2] = v2; model[p3] = v3; C.count("chained_bindings", 2);
+         }
          C.count("bindings");
          if (steps <= 100 || i % 16 == 0) query_all(i + 1);
       }
